@@ -315,7 +315,7 @@ impl Parsable<EngineMessage> for EngineManagementSystem {
 
 impl J1939Unit for EngineManagementSystem {
     fn vendor(&self) -> &'static str {
-        "kübler"
+        "j1939"
     }
 
     fn product(&self) -> &'static str {
